@@ -367,6 +367,23 @@ func c05Cases(tier string) []c05Case {
 		}
 	}
 	out = append(out, c05AbortCases(tier)...)
+	// contents with long zero runs: at the end of a chunk-sized file, in the middle, and nothing but zeros
+	{
+		T := fsmodel.T0
+		zf := func(p string, data []byte, mt int64) fsmodel.Node {
+			return fsmodel.Node{Path: p, Kind: fsmodel.File, Perm: 0644, Mtime: T + mt, Data: data}
+		}
+		zeros := fsmodel.Tree{zf("allzero", make([]byte, 8192), 1), zf("mid", append(append(fsmodel.Content(22, 5000), make([]byte, 40000)...), fsmodel.Content(23, 100)...), 2),
+			zf("tail", append(fsmodel.Content(21, 40960), make([]byte, 57344)...), 3), zf("tail-small", append(fsmodel.Content(24, 10), make([]byte, 8192)...), 4)}
+		zeros.Sort()
+		old := fsmodel.Tree{zf("allzero", fsmodel.Content(31, 9000), 9), zf("tail", fsmodel.Content(32, 100000), 9)}
+		for _, dst := range []fsmodel.Tree{nil, old} {
+			for _, mem := range []bool{true, false} {
+				c := SyncCase{Src: zeros, Dst: dst, Mem: mem}
+				out = append(out, c05Case{Sync: &c})
+			}
+		}
+	}
 	// metadata-only receives with the change callback: every selector subset of small trees with nested directories
 	{
 		T := fsmodel.T0
